@@ -1,7 +1,7 @@
 (* Command interpreter shared by the extracted binary and by in-Coq evaluation:
    one s-expression command per line in, one s-expression answer out. *)
 From Coq Require Import String Ascii List ZArith NArith Bool.
-From OL Require Import Sexp PyAst Unparse Config Namespace Lower Cli StrLit KSem.
+From OL Require Import Sexp PyAst Unparse Config Namespace Lower Cli StrLit KSem Scope.
 Import ListNotations.
 Open Scope string_scope.
 
@@ -29,6 +29,19 @@ Definition run_cmd (x : sexp) : sexp :=
       | _, _, _, None, _ => bad "decode-symtab"
       | _, _, _, _, None => bad "decode-block"
       | _, _, _, _, _ => bad "decode-config"
+      end
+  | L [A "scope-ok"; lt; st] =>
+      match bool_of lt, symtab_of st with
+      | Some lt', Some st' =>
+          match generate_nsp lt' st' with
+          | inl root =>
+              let ns := all_nsp root in
+              ok (L [sx_bool (tree_ok root); sx_nat (List.length ns);
+                     sx_nat (fold_left (fun a n => a + List.length (names_of n))%nat ns 0%nat);
+                     L (map (fun n => sx_nat (n_id n)) (filter (fun n => negb (nsp_ok n)) ns))])
+          | inr er => L [A "err"; A (err_name er)]
+          end
+      | _, _ => bad "decode-symtab"
       end
   | L [A "cli"; L cs; unp; out] =>
       match mapM bytes_of cs, opt_of ident_of unp, bool_of out with
